@@ -96,7 +96,7 @@ def run(tier):
     big = wc.valid_corpus(r_, wd, 4, rawmax=16000)
     inputs = list(wc.adversarial(deep_for_tlc=(tier == "thorough")))
     inputs += corpus[:60]
-    inputs += mutations(r_, corpus, 15000 if tier == "quick" else 150000)
+    inputs += mutations(r_, corpus, 15000 if tier == "quick" else 80000)
     inputs += mutations(r_, big, 30 if tier == "quick" else 300)
     for _ in range(300 if tier == "quick" else 5000):
         n = r_.choice([0, 1, 2, 3, 11, 12, 13, 17, 40, 100, 512, r_.randint(0, 600)])
